@@ -10,32 +10,39 @@ EXTENDS Naturals, Sequences, TLC, Json, IOUtils, FiniteSets
 
 Log == ndJsonDeserialize(IOEnv.TRACE)
 
-VARIABLES seen,    \* function: <<input, targ, mode>> -> <<out, err, rc>>
+VARIABLES seen,    \* function: <<input, targ, mode>> -> <<out, err, rc>> for the keys not yet run by both stages
           l,       \* next log line
-          stages   \* set of stages observed per key (both must appear for the run to count)
+          stages   \* set of stages observed per pending key
 
 vars == <<seen, l, stages>>
 
 Key(r) == <<r.input, r.targ, r.mode>>
 Res(r) == <<r.out, r.err, r.rc>>
+Without(f, k) == [x \in DOMAIN f \ {k} |-> f[x]]
 
 Init == seen = <<>> /\ l = 1 /\ stages = <<>>
 
 Run ==
   /\ l <= Len(Log)
-  /\ LET r == Log[l] IN
+  /\ LET r == Log[l]  k == Key(r) IN
        /\ r.e = "Run"
        /\ r.rc \in {0, 1, 2}                                 \* never a signal / abort
        /\ r.stage \in {1, 2}
-       /\ Key(r) \in DOMAIN seen => seen[Key(r)] = Res(r)    \* same result as every earlier run of this key
-       /\ seen' = (Key(r) :> Res(r)) @@ seen
-       /\ stages' = (Key(r) :> ((IF Key(r) \in DOMAIN stages THEN stages[Key(r)] ELSE {}) \cup {r.stage})) @@ stages
+       /\ k \in DOMAIN seen => seen[k] = Res(r)              \* same result as the earlier runs of this key
+       /\ LET st == (IF k \in DOMAIN stages THEN stages[k] ELSE {}) \cup {r.stage} IN
+            IF st = {1, 2}
+            THEN seen' = Without(seen, k) /\ stages' = Without(stages, k)      \* settled: both stages agree (keeps the state small)
+            ELSE seen' = (k :> Res(r)) @@ seen /\ stages' = (k :> st) @@ stages
   /\ l' = l + 1
 
-Next == Run
+Finish ==       \* the whole log is consumed and no key is left that only one stage ran
+  /\ l = Len(Log) + 1 /\ DOMAIN seen = {}
+  /\ l' = l + 1 /\ UNCHANGED <<seen, stages>>
+
+Next == Run \/ Finish
 Spec == Init /\ [][Next]_vars
 
-(* every line consumed, and every key was run by both stages *)
-Accepted == /\ TLCGet("stats").diameter - 1 = Len(Log)
-            /\ TLCGet("stats").diameter > 0
+(* every line consumed (one state per line, the initial state, and the Finish step), hence every key run by both stages *)
+Accepted == /\ TLCGet("stats").diameter - 2 = Len(Log)
+            /\ Len(Log) > 0
 =============================================================================
